@@ -11,11 +11,11 @@ from common import REPO
 READY = True
 
 META = {
-    "technique": "Lean 4 proof of the depth accounting of every native re-entry of the interpreter (weighted nesting <= limit for all traces) + regenerated cost/site tables + differential runs of recursive program shapes in child processes (2 MiB threads, opt-0/opt-1 debug, release) with measured stack bytes per level",
+    "technique": "Lean 4 proof of the depth accounting of every native re-entry of the interpreter (weighted nesting <= limit for all traces, exits restore the depth) + regenerated cost/site/exit-path tables + differential runs of recursive program shapes in child processes: an instrumented build (verif_hooks: high-water marks, depth probes) for the accounting, builds WITHOUT hooks (opt-0 debug, opt-1 debug, release; 2 MiB threads and main thread) for the stack, with measured stack bytes per level",
     "category": "proof",
-    "text": "PARTIAL by nature. Kernel-checked: in the model of Context::{push_frame,incr_depth,decr_depth,check_depth} and of the five native re-entries of eval_impl (macro call, caller(), include/import, block call/self.x()/render_block, super()), every re-entry first passes a checked depth increase of its edge cost (macro MACRO_RECURSION_COST+2, include INCLUDE_RECURSION_COST, block/super 1; constants regenerated from source), the caller's context is restored exactly on return without panic, the sum of edge costs over the native nesting is <= the limit in every reachable state for every mixture of edges, nested activations <= limit, a run with >= limit pending re-entries cannot return ok and ends with 'recursion limit exceeded' at the first attempt that does not fit, and set_recursion_limit clamps to MAX_RECURSION=500. Tied to the code by tables regenerated from vm/mod.rs, vm/context.rs, environment.rs and by running ~2000 (quick) recursive shapes x limits x {main, 2 MiB thread} x build profiles in child processes: model-predicted result and high-water marks of ctx.depth()/nested eval_impl must equal the hook's. NOT proved: the native stack bytes one re-entry consumes; they are measured each run and reported (bytes per level and per depth unit, margin against 2 MiB at limit 500). Every completed nested construct must leave Context::depth() as it found it: depth-neutral noise statements (includes that find nothing, includes/imports that succeed or fail with the error swallowed by a callback, macro calls, call blocks, with/for, render_block/call_macro from functions) sit on every frame of every cycle and in 1000-iteration loops between two depth probes (hook depth_of), proved for the model as missing_include_depth_neutral / failed_include_depth_restored / leave_restores_context and tied to the exit paths of perform_include by a regenerated table. Known finding: in an unoptimised debug build a block call/super() costs 1 depth unit but ~13.6 KB of stack, so self.block()/super() recursion at limits >= ~150 overflows a 2 MiB thread.",
+    "text": "PARTIAL by nature. Kernel-checked (24 obligations): in the model of Context::{push_frame,incr_depth,decr_depth,check_depth,restore_stack_depth} and of the native re-entries of eval_impl (macro call, caller(), include/import, block call/self.x()/State::render_block, super()) every re-entry first passes a checked depth increase of its edge cost (macro MACRO_RECURSION_COST+2, include INCLUDE_RECURSION_COST, block/super 1; constants regenerated from source); returning, failing at any nesting depth below, and not finding a template all leave the caller's depth exactly as it was, without panic (leave_restores_context, failed_include_depth_restored, missing_include_depth_neutral); the sum of edge costs over the native nesting is <= the limit in every reachable state for every mixture of edges; nested activations <= limit; a run with >= limit pending re-entries cannot return ok and fails at the first attempt that does not fit; set_recursion_limit clamps to MAX_RECURSION=500. Tie: tables regenerated from vm/mod.rs, vm/context.rs, environment.rs, compiler/parser.rs (re-entry sites with guards, exit paths of perform_include, every site of the crate that creates a Context/State or raises the depth - each classified root/constructor/guarded -, depth check, limit source, clamp) and ~13000 (quick) recursive shapes per build: cycles over include/import/macro/call-block/block/super/recursive-loop edges and over edges that pass through Rust (State::call_macro/render_block/apply_filter/perform_test, Value::call/call_method, Rust filters/tests via map/select/filter blocks, nested call blocks), depth-neutral noise on every frame between depth probes, 1000-iteration drift loops, limits 0..usize::MAX, cloned environments, render/render_captured/render_captured_to/render_named_str/new_state entry points: model-predicted outcome and high-water marks of ctx.depth()/nested eval_impl equal the hook's. NOT proved: native stack bytes per re-entry and per parser level; measured each run on builds without hooks and reported. Known findings (same two causes): block calls/super() cost 1 depth unit per ~13.7 KB (opt-0) native re-entry, and a loader-provided template is compiled on top of the running recursion with the parser's separate 150-level budget (C11_lazy_counterexample); see KNOWN_FINDINGS.jsonl.",
     "design_ref": "DESIGN.md §3 C11",
-    "level_note": "The stack bytes per re-entry are MEASURED, NOT PROVED: the theorems bound the number and weighted sum of nested interpreter activations by the recursion limit for every mixture of edges; that this bound keeps the native stack below 2 MiB depends on compiler, profile and target and is only observed (child processes must not die by signal; bytes/level per edge kind and the margin 500 x max(bytes/cost) vs 2 MiB are in the evidence). Trusted: Lean kernel; hand model MJ/Model/Depth.lean of context.rs/vm re-entry bookkeeping (validated differentially: outcome, depth and nesting high-water marks equal on all generated shapes); regex translator lib/tables/c11.py; the verif_hooks counters. Not covered: recursion through user Rust callbacks that start a fresh render, the `stacker` feature, stack use of filters/tests/objects called at the bottom, platforms other than this x86-64 Linux toolchain.",
+    "level_note": "The stack bytes per re-entry are MEASURED, NOT PROVED: the theorems bound the number and weighted sum of nested interpreter activations by the recursion limit for every mixture of edges; that this bound keeps the native stack below 2 MiB depends on compiler, profile and target and is only observed (child processes must not die by signal; bytes/level per edge kind and the margin 500 x max(bytes/cost) vs 2 MiB are in the evidence). The stack oracle (no death by signal) runs on builds of the crate WITHOUT verif_hooks; the instrumented build has larger frames and its overflows are only counted. Trusted: Lean kernel; hand model MJ/Model/Depth.lean of context.rs/vm re-entry bookkeeping (validated differentially: outcome, depth and nesting high-water marks equal on all generated shapes); regex translator lib/tables/c11.py; the verif_hooks counters. Not covered: recursion through user Rust callbacks that start a fresh render (classified as roots in context_sites_classified: they get a fresh budget), empty-state entry (new_state + render_block) only validated via a shift argument in the driver, the `stacker` feature, stack use of filters/tests/objects called at the bottom, platforms other than this x86-64 Linux toolchain.",
 }
 
 TABLES = ["MACRO_RECURSION_COST", "INCLUDE_RECURSION_COST", "MAX_RECURSION_ENV", "C11_REENTRY_SITES",
@@ -143,6 +143,8 @@ def evaluate(r, profile, lines, model, stats, max_recursion):
         if crashed and hooks:
             # the instrumented interpreter has larger frames: not evidence about the real crate
             r.hist["overflow_of_instrumented_build_only_counted"][f"{profile}:{thread_base}:{site_cls}"] += 1
+        elif status.startswith("panic"):
+            r.oracle_failure(full, f"the recursive render panicked: {status}", f"panic:{profile}:{site_cls}")
         elif crashed:
             r.oracle_failure(full, f"child did not survive the recursive render: {status} (native stack overflow) instead of 'recursion limit exceeded'",
                              f"stack-overflow:{profile}:{thread_base}:{site_cls}")
